@@ -1,5 +1,5 @@
 (* C19 / C20 model side.  One case per input line, one result line per case.
-     dec <major> <minor> <hex>          decode a stream:  OK \t <dump> \t <canonical labelled dump> \t REENC=<0|1>
+     dec <major> <minor> <hex>          decode a stream:  OK \t <dump> \t <labelled dump> \t REENC=<0|1> \t <sharing signature>
                                         (REENC: re-encoding the decoded labelled tree gives the input bytes)
                                         or  EXN:<n>  /  FUEL
      enc <fresh|share> <major> <minor> <dump>
@@ -99,6 +99,21 @@ let cl_dump (w : wtree) : string =
         "#" ^ string_of_int k ^ "=(" ^ head_of e ^ inner ^ ")" in
   go w
 
+(* ---- sharing signature: for every distinct id, (hash of the node's dump, number of occurrences in
+   the stream), sorted -- invariant under re-ordering of hash-ordered containers and of equivalent
+   elements inside a multiset ---- *)
+let share_sig (w : wtree) : string =
+  let tbl = Hashtbl.create 64 in
+  let rec go (w : wtree) =
+    let WT (a, e, kids) = w in
+    let key = dec_of_n a in
+    match Hashtbl.find_opt tbl key with
+    | Some (h, c) -> Hashtbl.replace tbl key (h, c + 1)
+    | None -> Hashtbl.add tbl key (Hashtbl.hash (dump e), 1); List.iter go kids in
+  go w;
+  let l = Hashtbl.fold (fun _ (h, c) acc -> Printf.sprintf "%08x:%d" h c :: acc) tbl [] in
+  String.concat "," (List.sort compare l)
+
 (* ---- labelling with maximal sharing: equal subtrees (same dump, same class) get one id ---- *)
 let label_share (e : expr) : wtree =
   let tbl = Hashtbl.create 64 in
@@ -168,7 +183,8 @@ let () =
             let bs = bytes_of_hex hx in
             print_endline (res_str (fun w ->
                 let re = encode false ver w in
-                "OK\t" ^ dump (wt_expr w) ^ "\t" ^ cl_dump w ^ "\tREENC=" ^ (if hex_of_bytes re = hx then "1" else "0"))
+                "OK\t" ^ dump (wt_expr w) ^ "\t" ^ cl_dump w ^ "\tREENC=" ^ (if hex_of_bytes re = hx then "1" else "0")
+                ^ "\t" ^ share_sig w)
               (decode_lab ver bs))
         | "fmap" :: ma :: mi :: [hx] ->
             let ver = (n_of_dec ma, n_of_dec mi) in
